@@ -1368,6 +1368,22 @@ void reb_simulation_rescale_var(struct reb_simulation* const r){
                 particles[i].vz /= scale;
             }
 
+            if (r->integrator == REB_INTEGRATOR_IAS15 && r->ri_ias15.N_allocated >= 3*(unsigned int)(vc->index+N)){
+                // IAS15 keeps compensated summation errors and predictor coefficients between steps.
+                // They are linear in the variational particles and need to be rescaled as well.
+                struct reb_integrator_ias15* const ri = &(r->ri_ias15);
+                double* const arrays[30] = {ri->csx, ri->csv,
+                    ri->b.p0, ri->b.p1, ri->b.p2, ri->b.p3, ri->b.p4, ri->b.p5, ri->b.p6,
+                    ri->e.p0, ri->e.p1, ri->e.p2, ri->e.p3, ri->e.p4, ri->e.p5, ri->e.p6,
+                    ri->br.p0, ri->br.p1, ri->br.p2, ri->br.p3, ri->br.p4, ri->br.p5, ri->br.p6,
+                    ri->er.p0, ri->er.p1, ri->er.p2, ri->er.p3, ri->er.p4, ri->er.p5, ri->er.p6};
+                for (int a=0; a<30; a++){
+                    for (int k=3*vc->index; k<3*(vc->index+N); k++){
+                        arrays[a][k] /= scale;
+                    }
+                }
+            }
+
             if (r->integrator == REB_INTEGRATOR_WHFAST && r->ri_whfast.safe_mode == 0){
                 r->ri_whfast.recalculate_coordinates_this_timestep = 1;
             }
